@@ -341,6 +341,9 @@ func (w *weaver) accStmts(s ast.Stmt) (before, after []ast.Stmt) {
 	seen := map[string]bool{}
 	for _, a := range accs {
 		key := a.text + fmt.Sprint(a.write, a.app)
+		if a.guard != nil {
+			key += fmt.Sprintf("|%p", a.guard)
+		}
 		if seen[key] {
 			continue
 		}
@@ -353,15 +356,23 @@ func (w *weaver) accStmts(s ast.Stmt) (before, after []ast.Stmt) {
 			} else {
 				first = call("int", a.idx)
 			}
+			body := []ast.Stmt{&ast.ReturnStmt{Results: []ast.Expr{a.expr, first, a.cnt}}}
+			if a.guard != nil {
+				body = append([]ast.Stmt{&ast.IfStmt{Cond: &ast.UnaryExpr{Op: token.NOT, X: &ast.ParenExpr{X: a.guard}},
+					Body: &ast.BlockStmt{List: []ast.Stmt{&ast.ReturnStmt{Results: []ast.Expr{id("nil"), intLit(0), intLit(0)}}}}}}, body...)
+			}
 			st = exprStmt(call("vhAccIdx",
-				thunk(&ast.FieldList{List: []*ast.Field{{Type: &ast.InterfaceType{Methods: &ast.FieldList{}}}, {Type: id("int")}, {Type: id("int")}}},
-					&ast.ReturnStmt{Results: []ast.Expr{a.expr, first, a.cnt}}),
+				thunk(&ast.FieldList{List: []*ast.Field{{Type: &ast.InterfaceType{Methods: &ast.FieldList{}}}, {Type: id("int")}, {Type: id("int")}}}, body...),
 				lit(a.name), id(strconv.FormatBool(a.write)), lit(w.site(s))))
 			w.count("accidx")
 		} else {
+			body := []ast.Stmt{&ast.ReturnStmt{Results: []ast.Expr{addrOf(a)}}}
+			if a.guard != nil {
+				body = append([]ast.Stmt{&ast.IfStmt{Cond: &ast.UnaryExpr{Op: token.NOT, X: &ast.ParenExpr{X: a.guard}},
+					Body: &ast.BlockStmt{List: []ast.Stmt{&ast.ReturnStmt{Results: []ast.Expr{id("nil")}}}}}}, body...)
+			}
 			st = exprStmt(call("vhAcc",
-				thunk(&ast.FieldList{List: []*ast.Field{{Type: &ast.InterfaceType{Methods: &ast.FieldList{}}}}},
-					&ast.ReturnStmt{Results: []ast.Expr{addrOf(a)}}),
+				thunk(&ast.FieldList{List: []*ast.Field{{Type: &ast.InterfaceType{Methods: &ast.FieldList{}}}}}, body...),
 				lit(a.name), id(strconv.FormatBool(a.write)), lit(w.site(s))))
 			w.count("acc")
 		}
@@ -638,6 +649,36 @@ func (w *weaver) pure(e ast.Expr) bool {
 		}
 	}
 	return false
+}
+
+// guardable reports whether evaluating e a second time is harmless: no
+// calls (but len/cap), no receives, no function literals.
+func (w *weaver) guardable(e ast.Expr) bool {
+	ok := true
+	ast.Inspect(e, func(n ast.Node) bool {
+		switch x := n.(type) {
+		case *ast.FuncLit:
+			ok = false
+		case *ast.UnaryExpr:
+			if x.Op == token.ARROW {
+				ok = false
+			}
+		case *ast.CallExpr:
+			if tv, isT := w.info().Types[x.Fun]; isT && tv.IsType() {
+				return ok // conversion
+			}
+			f, isI := x.Fun.(*ast.Ident)
+			if !isI {
+				ok = false
+				break
+			}
+			if _, isB := w.info().Uses[f].(*types.Builtin); !isB || (f.Name != "len" && f.Name != "cap") {
+				ok = false
+			}
+		}
+		return ok
+	})
+	return ok
 }
 
 // tracked reports whether the root of a selector/index chain is something
@@ -1412,6 +1453,9 @@ type acc struct {
 	app bool
 	// ptr: expr already is the address (access through a pointer, *p)
 	ptr bool
+	// guard: the access is only evaluated when this (side-effect free)
+	// condition holds: the right operand of && or ||
+	guard ast.Expr
 }
 
 func (w *weaver) exprText(e ast.Expr) string {
@@ -1531,7 +1575,23 @@ func (w *weaver) collect(s ast.Stmt) []acc {
 		case *ast.BinaryExpr:
 			visit(e.X, false)
 			if e.Op != token.LAND && e.Op != token.LOR {
-				visit(e.Y, false) // short-circuit operands may not be evaluated
+				visit(e.Y, false)
+			} else if w.guardable(e.X) {
+				// a short-circuit operand is evaluated only if the left operand
+				// allows it: its accesses are annotated under that condition
+				n := len(out)
+				visit(e.Y, false)
+				var g ast.Expr = &ast.ParenExpr{X: e.X}
+				if e.Op == token.LOR {
+					g = &ast.UnaryExpr{Op: token.NOT, X: g}
+				}
+				for i := n; i < len(out); i++ {
+					if out[i].guard == nil {
+						out[i].guard = g
+					} else {
+						out[i].guard = &ast.BinaryExpr{X: g, Op: token.LAND, Y: &ast.ParenExpr{X: out[i].guard}}
+					}
+				}
 			}
 		case *ast.IndexExpr:
 			if name, ok := w.sliceName(e.X); ok && w.pure(e.X) && w.pure(e.Index) {
@@ -1753,6 +1813,16 @@ func (w *weaver) collect(s ast.Stmt) []acc {
 			})
 			if a.idx != nil {
 				ast.Inspect(a.idx, func(n ast.Node) bool {
+					if idn, ok := n.(*ast.Ident); ok {
+						if o := w.info().Uses[idn]; o != nil && o.Pos() >= init.Pos() && o.Pos() <= init.End() {
+							local = true
+						}
+					}
+					return true
+				})
+			}
+			if a.guard != nil {
+				ast.Inspect(a.guard, func(n ast.Node) bool {
 					if idn, ok := n.(*ast.Ident); ok {
 						if o := w.info().Uses[idn]; o != nil && o.Pos() >= init.Pos() && o.Pos() <= init.End() {
 							local = true
